@@ -350,7 +350,7 @@ case_strategy = st.fixed_dictionaries({'max_size': st.sampled_from([150, 400, 10
 
 
 def shards(tier):
-    out = [{'name': 'histories-%d' % i, 'kind': 'hyp', 'examples': 400 if tier == 'quick' else 25000, 'hypothesis': True}
+    out = [{'name': 'histories-%d' % i, 'kind': 'hyp', 'examples': 1200 if tier == 'quick' else 25000, 'hypothesis': True}
            for i in range(8 if tier == 'quick' else 14)]
     out += [{'name': 'exhaustive-%d' % i, 'kind': 'exh', 'part': i, 'parts': 8 if tier == 'quick' else 2,
              'len': 3 if tier == 'quick' else 4} for i in range(8 if tier == 'quick' else 2)]
